@@ -4,15 +4,9 @@
 open Driver
 type string = Stdlib.String.t
 
-let props_of = function
-  | "T1" -> ["C01"; "C02"; "C03"; "C05"; "C08"; "C09"; "C20"]
-  | "T2" -> ["C02"; "C03"; "C05"; "C08"; "C09"; "C20"]
-  | "T3" -> ["C02"; "C03"; "C05"; "C08"; "C09"; "C20"]
-  | "K1" -> ["C16"]
-  | "K2" -> ["C17"]
-  | "K3" -> ["C19"]
-  | _ -> []
-let applies fid prop = List.mem prop (props_of fid)
+let props_of fid = try List.assoc fid Known_table.table with Not_found -> []
+let search_mode = (try Sys.getenv "VERIF_KNOWN_ALL" = "1" with Not_found -> false)
+let applies fid prop = if search_mode then true else List.mem prop (props_of fid)
 
 let is_up o = (try variant o = "Up" with Bad _ -> false)
 let is_rm o = (try variant o = "Rm" with Bad _ -> false)
